@@ -8,6 +8,8 @@ mod state;
 pub(crate) use runner::VerifHybridQuery;
 #[cfg(feature = "ipa-verif")]
 pub(crate) use runner::verif_reshard_aad;
+#[cfg(feature = "ipa-verif")]
+pub(crate) use runner::execute_hybrid_protocol as verif_execute_hybrid_protocol;
 
 use completion::Handle as CompletionHandle;
 pub use executor::Result as ProtocolResult;
